@@ -91,7 +91,7 @@ func c12Gen(r *core.Rng) c12case {
 	k.HasCache = r.Chance(60)
 	nv := 0
 	n := r.Range(0, 5)
-	dangerous := r.Chance(30) || (k.ViaLink && r.Chance(40))
+	dangerous := r.Chance(30) || ((k.ViaLink || k.ProjName != "") && r.Chance(60))
 	for i := 0; i < n; i++ {
 		switch r.Intn(3) {
 		case 0:
